@@ -14,7 +14,7 @@ RULE = ("pipe (model vs implementation, five-stage): random structured programs 
         "loads/stores, forward/backward branches, jal/jalr incl. wrapping targets, printing/exiting/invalid ecalls, faulting "
         "accesses), compared after EVERY cycle: registers, data memory, output, exit code, address in latch W, instruction/branch/"
         "procedure counters, done flag, fault fields. modes (implementation five-stage vs implementation single-cycle): exhaustive "
-        "over all sequences up to length 3 (quick) / 4 (thorough) from a 17-instruction hazard-complete alphabet x 2 register presets, "
+        "over all sequences up to length 3 (quick) / 4 (thorough) from an 18-instruction hazard-complete alphabet x 2 register presets, "
         "plus random programs up to 40 instructions; compared: final registers, memory, output, exit code, retired-instruction "
         "order and count, branch and call counts, termination; at a fault: address, registers, memory, output. "
         "Non-trivial = at least 3 instructions retired.")
@@ -98,6 +98,7 @@ def alphabet():
         [A["addi"], 17, 0, 93],         # a7 producer (exit)
         [A["addi"], 10, 1, 3],          # a0 producer
         [A["ecall"]],
+        [A["addi"], 0, 0, 0],           # the canonical nop
     ]
 
 
@@ -185,8 +186,10 @@ class ModesRandom(ModesExhaustive):
         return None
 
     def gen(self, rng, index, tier):
-        prog = gen_rv.gen_program(rng, maxlen=40 if rng.random() < 0.3 else 14)
-        spec = gen_rv.gen_state_spec(rng, prog)
+        prog = gen_rv.gen_program(rng, maxlen=40 if rng.random() < 0.3 else 14, aligned_only=rng.random() < 0.5)
+        # the equivalence holds for every configuration: a third of the cases run with data / instruction caches
+        spec = gen_rv.gen_state_spec(rng, prog, gen_rv.gen_cache_cfg(rng) if rng.random() < 0.3 else [],
+                                     gen_rv.gen_cache_cfg(rng) if rng.random() < 0.2 else [])
         if rng.random() < 0.25:      # jalr whose target wraps around 2^32 (x31 is not written by generated code)
             base = rng.choice([0xFFFFFFFC, 0xFFFFFFF8, 0xFFFFFFFE, 0xFFFFFFF0])
             k = rng.randrange(0, len(prog) + 1)
